@@ -1,0 +1,120 @@
+//! Verification hooks (feature `verif-hooks`, off by default).
+//!
+//! Nothing in here changes the behaviour of the library: it only lets an external harness
+//! (a) play several app launches in one process, (b) replace the network callbacks, and
+//! (c) observe / pause threads at the points where the two global locks are taken.
+//! Plain Rust items only (no `extern "C"`, no `#[repr(C)]`, no `pub const`), so cbindgen's
+//! generated header is identical with the feature on or off.
+
+use std::cell::Cell;
+use std::sync::RwLock;
+
+pub use crate::network::{
+    CreatePatchEventRequest, DownloadFileFn, NetworkHooks, Patch, PatchCheckRequest,
+    PatchCheckRequestFn, PatchCheckResponse, ReportEventFn,
+};
+
+/// Points at which the sync hook is called.
+#[derive(Debug, Clone, Copy, PartialEq, Eq)]
+pub enum SyncEvent {
+    /// About to block on the config mutex.
+    CfgBefore,
+    /// Config mutex acquired.
+    CfgAcquired,
+    /// Config mutex about to be released.
+    CfgRelease,
+    /// try_lock on the update mutex returned; `true` if acquired.
+    UpdTry(bool),
+    /// Update mutex about to be released.
+    UpdRelease,
+}
+
+static SYNC_HOOK: RwLock<Option<fn(SyncEvent)>> = RwLock::new(None);
+
+thread_local! {
+    static CFG_DEPTH: Cell<usize> = Cell::new(0);
+    static UPD_DEPTH: Cell<usize> = Cell::new(0);
+}
+
+/// Installs (or clears) the sync hook.
+pub fn verif_set_sync_hook(hook: Option<fn(SyncEvent)>) {
+    *SYNC_HOOK.write().unwrap() = hook;
+}
+
+/// How many times the calling thread currently holds the config mutex (0 or 1).
+pub fn verif_cfg_depth() -> usize {
+    CFG_DEPTH.with(|d| d.get())
+}
+
+/// How many times the calling thread currently holds the update mutex (0 or 1).
+pub fn verif_upd_depth() -> usize {
+    UPD_DEPTH.with(|d| d.get())
+}
+
+pub(crate) fn sync_event(event: SyncEvent) {
+    let hook = *SYNC_HOOK.read().unwrap();
+    if let Some(hook) = hook {
+        hook(event);
+    }
+}
+
+/// Marks the config mutex as held by this thread for as long as the value lives.
+pub(crate) struct CfgHeld;
+
+impl CfgHeld {
+    pub(crate) fn new() -> Self {
+        CFG_DEPTH.with(|d| d.set(d.get() + 1));
+        sync_event(SyncEvent::CfgAcquired);
+        CfgHeld
+    }
+}
+
+impl Drop for CfgHeld {
+    fn drop(&mut self) {
+        sync_event(SyncEvent::CfgRelease);
+        CFG_DEPTH.with(|d| d.set(d.get().saturating_sub(1)));
+    }
+}
+
+/// Marks the update mutex as held by this thread for as long as the value lives.
+pub(crate) struct UpdHeld;
+
+impl UpdHeld {
+    pub(crate) fn new() -> Self {
+        UPD_DEPTH.with(|d| d.set(d.get() + 1));
+        UpdHeld
+    }
+}
+
+impl Drop for UpdHeld {
+    fn drop(&mut self) {
+        sync_event(SyncEvent::UpdRelease);
+        UPD_DEPTH.with(|d| d.set(d.get().saturating_sub(1)));
+    }
+}
+
+/// Forgets the global config, as a process restart would.
+pub fn verif_reset_config() {
+    crate::config::with_config_mut(|config| {
+        *config = None;
+    });
+}
+
+/// Replaces the network callbacks of the initialized config. Returns false if not initialized.
+pub fn verif_set_network_hooks(
+    patch_check_request_fn: PatchCheckRequestFn,
+    download_file_fn: DownloadFileFn,
+    report_event_fn: ReportEventFn,
+) -> bool {
+    crate::config::with_config_mut(|maybe_config| match maybe_config {
+        Some(config) => {
+            config.network_hooks = NetworkHooks {
+                patch_check_request_fn,
+                download_file_fn,
+                report_event_fn,
+            };
+            true
+        }
+        None => false,
+    })
+}
